@@ -49,7 +49,9 @@ OBLIGATIONS.append(_o('C04.caps.layout', CK + 'c04_caps_layout', 'vfs_cap_data l
 OBLIGATIONS.append(_o('C04.caps.flags', CK + 'c04_caps_flags', 'the real check_capability, for all u32 permitted / inheritable words and every single-bit capability: "ip" / "p" / "i" / no entry per set bit', units=('caps',)))
 OBLIGATIONS.append(_o('C04.extclass', NU + 'c04_extclass', 'the real has_extension: for every 4-character printable ASCII name and the list [.a, .bc]: true exactly when the lower-cased name ends with a listed extension', complete=False, bound='name of 4 ASCII characters, 2 extensions', units=('nameutils',)))
 OBLIGATIONS.append(_o('C04.hidden', NU + 'c04_hidden', 'the real is_hidden (unix, not in an archive): true exactly when the name starts with a dot, for every 2-character printable ASCII name', complete=False, bound='name of 2 ASCII characters', units=('nameutils',)))
-CANARIES = [dict(harness=M + 'canary_mode_must_fail', units=['mode']), dict(harness=CK + 'canary_caps_must_fail', units=['caps']), dict(harness=NU + 'canary_names_must_fail', units=['nameutils'])]
+OBLIGATIONS.append(_o('C04.linecount', 'verif_frag::linecount::c17_linecount', 'the WHOLE real util::get_line_count (verbatim on a scripted file of up to three chunks): a readable file has exactly the number of newline bytes of all its chunks, a file that cannot be opened or read to its end has no count (same harness as C17.linecount)', engine='F', complete=False, bound='files of <= 3 chunks of 1..3 symbolic bytes', units=('linecount',)))
+OBLIGATIONS.append(_o('C04.shebang', 'verif_frag::linecount::c17_shebang', 'the WHOLE real util::is_shebang (verbatim on the same scripted file): true exactly when the first two bytes can be read and are `#!` (same harness as C17.shebang)', engine='F', complete=False, bound='files of <= 3 chunks of 1..3 symbolic bytes', units=('linecount',)))
+CANARIES = [dict(harness=M + 'canary_mode_must_fail', units=['mode']), dict(harness=CK + 'canary_caps_must_fail', units=['caps']), dict(harness=NU + 'canary_names_must_fail', units=['nameutils']), dict(harness='verif_frag::linecount::canary_linecount_must_fail', units=['linecount'])]
 
 ASSUMPTIONS = [
     'st_mode delivered by lstat / stored in the zip entry is the value passed to the predicates (T4); in the wrapper '
@@ -62,6 +64,6 @@ ASSUMPTIONS = [
 NOT_COVERED = [
     'that the metadata is the entry own lstat; size, uid/gid, owner names, inode, links, blocks, mtime, xattrs (T4)',
     'is_file / is_dir / is_symlink of real entries (std FileType, trusted)',
-    'name/path/dir/abspath decomposition; digests, line_count, is_shebang, CONTAINS (I/O)',
+    'name/path/dir/abspath decomposition; digests and CONTAINS (I/O, format!, regex); line_count / is_shebang only on the scripted file, not over the OS',
     'which extension list a class column uses (Config lookup), configuration override of the extension lists',
 ]
